@@ -1,4 +1,5 @@
 import datetime
+import math
 import decimal
 import re
 
@@ -260,8 +261,15 @@ class Number(Scalar):
             try:
                 return self.format % value
             except (ValueError, ArithmeticError):
-                # not representable by the format, e.g. a signaling NaN
-                pass
+                # not representable by the format, e.g. a signaling NaN or an
+                # infinity under '%i'.  For an ordinary finite number the
+                # format itself is at fault: let that error out.
+                try:
+                    finite = math.isfinite(value)
+                except (ValueError, TypeError, ArithmeticError):
+                    finite = False
+                if finite:
+                    raise
         return str(value)
 
 
